@@ -12,8 +12,10 @@
    entries appended behind a torn tail).  Heights are uint32 in the code: the
    wrap-around is written out ([u32]).
 
-   The model is of the tree WITH the fix for F03 (appendRaw takes the
-   pre-write size with Seek(0, io.SeekEnd)), see KNOWN_FINDINGS. *)
+   The model is of the tree WITH the fixes for F03 (appendRaw takes the
+   pre-write size with Seek(0, io.SeekEnd)), F04 (rollbacks commit the index
+   before truncating the file) and F05 (opening a store trims a partially
+   written header), see KNOWN_FINDINGS. *)
 From stdpp Require Import gmap list.
 From Coq Require Import ZArith Lia.
 Open Scope Z_scope.
@@ -223,8 +225,28 @@ Definition brollback_plan (s : store) (n : Z) : option (list dstep * Z * Z) :=
     if n >? th then None else
     match read_range BSZ (bf s) (th - n) th with
     | Some (prev :: rest) =>
-      Some ([DTruncB n; DIdxDel (map rd_tok rest) (rd_tok prev)], th - n, rd_tok prev)
+      Some ([DIdxDel (map rd_tok rest) (rd_tok prev); DTruncB n], th - n, rd_tok prev)
     | _ => None
+    end
+  end.
+
+(* run the durable steps of a rollback in order; an index step fails under
+   DbFail/DbSyncFail, a truncate step under TruncFail; a failure returns the
+   error with the steps done so far left in place *)
+Definition step_fails (d : dstep) (flt : fault) : bool :=
+  match d, flt with
+  | (DIdxAdd _ | DIdxDel _ _ | DFTip _), (DbFail | DbSyncFail) => true
+  | (DTruncB _ | DTruncF _), TruncFail => true
+  | _, _ => false
+  end.
+Fixpoint run_steps (s : store) (ds : list dstep) (flt : fault) : store * bool :=
+  match ds with
+  | [] => (s, true)
+  | d :: t =>
+    if step_fails d flt then (s, false) else
+    match apply_step s d with
+    | Some s' => run_steps s' t flt
+    | None => (s, false)
     end
   end.
 
@@ -235,13 +257,8 @@ Definition brollback (s : store) (n : Z) (flt : fault) : store * option (Z * Z) 
   match brollback_plan s n with
   | None => (s, None)
   | Some (steps, h, x) =>
-    match flt, steps with
-    | TruncFail, _ => (s, None)
-    | (DbFail | DbSyncFail), d1 :: _ =>
-        match apply_step s d1 with Some s1 => (s1, None) | None => (s, None) end
-    | _, _ =>
-        match apply_steps s steps with Some s' => (s', Some (h, x)) | None => (s, None) end
-    end
+    let '(s', ok) := run_steps s steps flt in
+    (s', if ok then Some (h, x) else None)
   end.
 
 (* filterHeaderStore.RollbackLastBlock newTip *)
@@ -252,7 +269,7 @@ Definition frollback_plan (s : store) (newtip : Z) : option (list dstep * Z * Z)
     let nh := u32 (th - 1) in
     match fread FSZ (ff s) nh with
     | RdEOF => None
-    | r => Some ([DTruncF 1; DFTip newtip], nh, rd_tok r)
+    | r => Some ([DFTip newtip; DTruncF 1], nh, rd_tok r)
     end
   end.
 
@@ -260,18 +277,20 @@ Definition frollback (s : store) (newtip : Z) (flt : fault) : store * option (Z 
   match frollback_plan s newtip with
   | None => (s, None)
   | Some (steps, h, x) =>
-    match flt, steps with
-    | TruncFail, _ => (s, None)
-    | (DbFail | DbSyncFail), d1 :: _ =>
-        match apply_step s d1 with Some s1 => (s1, None) | None => (s, None) end
-    | _, _ =>
-        match apply_steps s steps with Some s' => (s', Some (h, x)) | None => (s, None) end
-    end
+    let '(s', ok) := run_steps s steps flt in
+    (s', if ok then Some (h, x) else None)
   end.
 
 (* ---------------- open / recovery ---------------- *)
+(* trimPartialHeader: drop a partially written entry at the end of the file *)
+Definition trim (esz : Z) (f : ffile) : ffile :=
+  let partial := fsize esz f mod esz in
+  if partial =? 0 then f else
+  match ftruncate esz f (fsize esz f - partial) with Some f' => f' | None => f end.
+
 (* NewBlockHeaderStore on existing state; genesis = hash token of the genesis header *)
-Definition recover_block (genesis : Z) (s : store) : option store :=
+Definition recover_block (genesis : Z) (s0 : store) : option store :=
+  let s := set_bf s0 (trim BSZ (bf s0)) in
   if fsize BSZ (bf s) =? 0 then
     match bwrite s [(genesis, 0)] NoFault with (s', ROk) => Some s' | _ => None end
   else
@@ -288,7 +307,8 @@ Definition recover_block (genesis : Z) (s : store) : option store :=
     end.
 
 (* NewFilterHeaderStore (no state assertion); gfh = genesis filter header token *)
-Definition recover_filter (gfh genesis : Z) (s : store) : option store :=
+Definition recover_filter (gfh genesis : Z) (s0 : store) : option store :=
+  let s := set_ff s0 (trim FSZ (ff s0)) in
   if fsize FSZ (ff s) =? 0 then
     match fwrite s [(gfh, genesis)] NoFault with (s', ROk) => Some s' | _ => None end
   else
